@@ -92,6 +92,7 @@ type cfg struct {
 }
 
 type muser struct {
+	run          int       // consecutive checked failures since the last success / lock end / possible pruning
 	fMin, fMax   int       // consecutive failures an implementation must / may remember
 	lastFailure  time.Time
 	mustLocked   time.Time // refused for sure until then
@@ -194,14 +195,25 @@ func (m *model) judge(e Ev, o obs, now time.Time) (string, string) {
 	// an idle record may have been pruned (the text is silent): the implementation may have forgotten
 	if !u.lastFailure.IsZero() && now.Sub(u.lastFailure) > 2*m.c.Lockout {
 		u.fMin = 0
+		u.run = 0
 	}
 
 	u.fMin++
 	u.fMax++
 	u.lastFailure = now
 
-	if u.fMin == lim {
+	// A fresh run of `limit` consecutive failures, all of them strictly after
+	// any earlier lockout can have ended, must lock under every reading of the
+	// statement (whether or not an implementation keeps counting across a
+	// lockout): an account that is never locked again after its first lockout
+	// has passed gives unlimited guesses.
+	if now.After(u.mayLocked) { // u.mayLocked: the bound set by EARLIER failures
+		u.run++
+	}
+
+	if u.fMin == lim || u.run == lim {
 		u.mustLocked = now.Add(m.c.Lockout)
+		u.run = 0
 	}
 
 	if u.fMax >= lim {
@@ -233,7 +245,7 @@ func (m *model) key(now time.Time) string {
 			}
 		}
 
-		s += fmt.Sprintf("%d/%d/%d/%d/%d;", u.fMin, u.fMax, idle, rel(u.mustLocked), rel(u.mayLocked))
+		s += fmt.Sprintf("%d/%d/%d/%d/%d/%d;", u.run, u.fMin, u.fMax, idle, rel(u.mustLocked), rel(u.mayLocked))
 	}
 
 	return s
